@@ -101,8 +101,10 @@ def _init_worker() -> None:
 _DOM_CACHE: dict[str, list] = {}
 
 
-def domain_of(row: cat.Row, tier: str, seed: int, opts: dict) -> list[dict]:
-    """The row's domain for these options, de-duplicated, canonical order."""
+def domain_json(row: cat.Row, tier: str, seed: int, opts: dict) -> list[str]:
+    """The row's domain for these options as JSON strings, de-duplicated, in
+    canonical order.  Cached per worker (chunks of all rows are interleaved,
+    so every worker visits every domain; strings keep that cache small)."""
     key = json.dumps([row.name, tier, seed, opts], sort_keys=True)
     if key not in _DOM_CACHE:
         seen = set()
@@ -111,11 +113,13 @@ def domain_of(row: cat.Row, tier: str, seed: int, opts: dict) -> list[dict]:
             k = json.dumps(s, sort_keys=True)
             if k not in seen:
                 seen.add(k)
-                out.append(s)
-        if len(_DOM_CACHE) > 64:
-            _DOM_CACHE.clear()
+                out.append(json.dumps(s))
         _DOM_CACHE[key] = out
     return _DOM_CACHE[key]
+
+
+def domain_of(row: cat.Row, tier: str, seed: int, opts: dict) -> list[dict]:
+    return [json.loads(s) for s in domain_json(row, tier, seed, opts)]
 
 
 # ------------------------------------------------------------------ judging
@@ -178,6 +182,8 @@ def _execute(row: cat.Row, opts: dict, spec: dict, seed: int) -> dict:
                         raise
                     tb = str(e) if isinstance(e, TaskError) \
                         else traceback.format_exc()
+                    if '_CaseTimeout' in tb:
+                        raise _CaseTimeout()
                     r['outcome'] = 'pre-pass-failed'
                     r['pre_error'] = _error_signature(tb)[2]
                     return r
@@ -201,6 +207,10 @@ def _execute(row: cat.Row, opts: dict, spec: dict, seed: int) -> dict:
                 # worker's own error handling; judge it like a task error
                 tb = str(e) if isinstance(e, TaskError) \
                     else traceback.format_exc()
+                if '_CaseTimeout' in tb:
+                    # the alarm fired inside a Python callback of native
+                    # code, which re-raises it as a panic: still a timeout
+                    raise _CaseTimeout()
                 etype, slug, last = _error_signature(tb)
                 why = row.rejects(opts, spec, etype, last)
                 if why is not None:
@@ -302,12 +312,12 @@ def _chunk(job: tuple) -> dict:
     }
     if time.time() > deadline:
         return agg
-    dom = domain_of(row, tier, seed, opts)
     cpu0 = time.process_time()
+    dom = domain_json(row, tier, seed, opts)
     for i in range(lo, hi):
         if time.time() > deadline:      # budget exhausted: return the prefix
             break
-        spec = dom[i]
+        spec = json.loads(dom[i])
         r = judge(rowname, opts, spec, seed)
         agg['cases'] += 1
         agg['outcomes'][r['outcome']] = agg['outcomes'].get(r['outcome'], 0) + 1
@@ -344,7 +354,7 @@ def _plan(tier: str, seed: int, deadline: float,
             continue
         jobs = []
         for opts in row.options(tier, seed):
-            n = len(domain_of(row, tier, seed, opts))
+            n = len(domain_json(row, tier, seed, opts))
             step = max(1, int(0.5 / row.weight))
             for lo in range(0, n, step):
                 jobs.append((name, tier, seed, opts, lo, min(n, lo + step),
@@ -360,8 +370,8 @@ def run(ctx: Ctx) -> None:
     budget = QUICK_BUDGET if ctx.quick else THOROUGH_BUDGET
     budget = float(os.environ.get('C10_BUDGET', budget))   # development aid
     deadline = ctx.t0 + budget
+    # the workers are forked after this and inherit the enumerated domains
     plans = _plan(ctx.tier, ctx.seed, deadline, only)
-    _DOM_CACHE.clear()
     total = {p[0][0]: sum(j[5] - j[4] for j in p) for p in plans if p}
     # interleave the rows proportionally, so that a time cap trims the same
     # fraction off the tail of every row's canonical order
